@@ -350,10 +350,10 @@ def resource_catalogue():
     # nested types built FLAT, one alias / constant per level (the bracket-nesting guard does not see them), with
     # the mismatch at the bottom: fixed-shape lists, open lists, optionals, maps, function types (area round a5-4)
     for n_ in (30, 60):
-        for kind_, ty_, val_ in (("fixed", "[T%d, int]", "[v%d, 1]"), ("fixed_first_int", "[int, T%d]", "[1, v%d]"),
+        for kind_, ty_, val_ in (("fixed", "[T%d,int]", "[v%d, 1]"), ("fixed_first_int", "[int,T%d]", "[1, v%d]"),
                                  ("open", "[T%d...]", "[v%d]"), ("map", "map[int, T%d]", "map[int, T%d] { }"),
-                                 ("fixed_vs_open", "[T%d, int]", "[v%d, 1]")):
-            lines_ = ["type T1 [int, int]" if kind_ != "fixed_vs_open" else "type T1 [int...]", 'const v1 = ["s", 1]']
+                                 ("fixed_vs_open", "[T%d,int]", "[v%d, 1]")):
+            lines_ = ["type T1 [int,int]" if kind_ != "fixed_vs_open" else "type T1 [int...]", 'const v1 = ["s", 1]']   # no blank after the comma: `[int, int]` is not a type
             for k_ in range(2, n_ + 1):
                 lines_.append("type T%d %s" % (k_, ty_ % (k_ - 1)))
                 if kind_ == "map":
